@@ -21,6 +21,7 @@ import (
 	"encoding/binary"
 	"fmt"
 	"io"
+	"os"
 	"sort"
 	"strings"
 	"testing"
@@ -237,36 +238,49 @@ func vC06Run(t *testing.T, out *vOut, st *vC06Stats, stream string, ver protocol
 	st.lens[fmt.Sprintf("len<=%d", ((len(votes)+9)/10)*10)]++
 }
 
-func vC06Exhaustive(t *testing.T, out *vOut, st *vC06Stats, nS, nV, L int, weights [][]uint64, ths []uint64, steps []step) {
-	alpha := nS * nV
-	idx := make([]int, L)
-	combo := 0
+type vC06Combo struct {
+	ws []uint64
+	th uint64
+}
+
+func vC06Combos(weights [][]uint64, ths []uint64) (res []vC06Combo) {
 	for _, ws := range weights {
 		for _, th := range ths {
-			s := steps[combo%len(steps)]
-			combo++
-			ver := vC06Proto(fmt.Sprintf("verif-c06-t%d", th), [6]uint64{th, th, th, th, th, th})
-			for i := range idx {
-				idx[i] = 0
+			res = append(res, vC06Combo{ws, th})
+		}
+	}
+	return
+}
+
+// every sequence of exactly L votes over nS senders x nV values (shorter ones are its prefixes
+// and are observed vote by vote), per (weight vector, threshold) combination
+func vC06Exhaustive(t *testing.T, out *vOut, st *vC06Stats, nS, nV, L int, combos []vC06Combo, steps []step) {
+	alpha := nS * nV
+	idx := make([]int, L)
+	for ci, c := range combos {
+		ws, th := c.ws, c.th
+		s := steps[(ci+nS+L)%len(steps)]
+		ver := vC06Proto(fmt.Sprintf("verif-c06-t%d", th), [6]uint64{th, th, th, th, th, th})
+		for i := range idx {
+			idx[i] = 0
+		}
+		for {
+			votes := make([]vC06Vote, L)
+			for i, a := range idx {
+				votes[i] = vC06Vote{uint64(a / nV), uint64(a % nV), ws[a/nV]}
 			}
-			for {
-				votes := make([]vC06Vote, L)
-				for i, a := range idx {
-					votes[i] = vC06Vote{uint64(a / nV), uint64(a % nV), ws[a/nV]}
-				}
-				vC06Run(t, out, st, "exhaustive", ver, s, votes)
-				k := L - 1
-				for k >= 0 {
-					idx[k]++
-					if idx[k] < alpha {
-						break
-					}
-					idx[k] = 0
-					k--
-				}
-				if k < 0 {
+			vC06Run(t, out, st, "exhaustive", ver, s, votes)
+			k := L - 1
+			for k >= 0 {
+				idx[k]++
+				if idx[k] < alpha {
 					break
 				}
+				idx[k] = 0
+				k--
+			}
+			if k < 0 {
+				break
 			}
 		}
 	}
@@ -283,23 +297,29 @@ func TestVerifC06(t *testing.T) {
 	st := &vC06Stats{panics: map[string]int{}, lens: map[string]int{}, streams: map[string]int{}}
 	allSteps := []step{soft, cert, next, next + 4, late, redo, down}
 
-	// ---- exhaustive small universes
+	// ---- exhaustive small universes (skipped by the violation search: same cases every time)
 	thorough := vTier() == "thorough"
+	search := os.Getenv("VERIF_SEARCH") != ""
 	L := vEnvInt("VERIF_C06_L", 5)
-	w3 := [][]uint64{{1, 1, 1}, {2, 1, 1}, {1, 2, 2}, {3, 1, 2}}
-	if thorough {
-		w3 = append(w3, []uint64{1, 1, 2}, []uint64{2, 2, 1}, []uint64{2, 3, 1}, []uint64{1, 1, 3})
-	}
-	vC06Exhaustive(t, out, st, 3, 2, L, w3, []uint64{2, 3}, allSteps)
-	vC06Exhaustive(t, out, st, 2, 3, L, [][]uint64{{1, 1}, {1, 2}, {2, 1}}, []uint64{2, 3}, allSteps)
-	if thorough {
-		vC06Exhaustive(t, out, st, 4, 2, 6, [][]uint64{{1, 1, 1, 1}, {2, 1, 1, 1}, {1, 2, 1, 2}}, []uint64{3, 4}, allSteps)
-		vC06Exhaustive(t, out, st, 3, 3, 5, [][]uint64{{1, 1, 1}, {1, 2, 1}}, []uint64{2, 3, 4}, allSteps)
+	if !search {
+		w3 := [][]uint64{{1, 1, 1}, {2, 1, 1}, {1, 2, 2}, {3, 1, 2}}
+		if thorough {
+			w3 = append(w3, []uint64{1, 1, 2}, []uint64{2, 3, 1})
+		}
+		vC06Exhaustive(t, out, st, 3, 2, L, vC06Combos(w3, []uint64{2, 3}), allSteps)
+		vC06Exhaustive(t, out, st, 2, 3, L, vC06Combos([][]uint64{{1, 1}, {1, 2}, {2, 1}}, []uint64{2, 3}), allSteps)
+		if thorough {
+			vC06Exhaustive(t, out, st, 4, 2, 6, []vC06Combo{{[]uint64{1, 1, 1, 1}, 3}, {[]uint64{2, 1, 1, 2}, 4}}, allSteps)
+			vC06Exhaustive(t, out, st, 3, 3, 5, vC06Combos([][]uint64{{1, 1, 1}, {1, 2, 1}}, []uint64{2, 3}), allSteps)
+		}
 	}
 
 	// ---- random long sequences
 	rnd := vNewRand(606)
 	n := vEnvInt("VERIF_C06_N", 1500)
+	if search {
+		n *= 8
+	}
 	cur := protocol.ConsensusCurrentVersion
 	for i := 0; i < n; i++ {
 		var ver protocol.ConsensusVersion
